@@ -500,6 +500,24 @@ def check_pair(case):
     stats["n_reassemble_compared"] = 1
     if ok:
         evals += check_step_callback(system, items, L, states, fails, data2)
+    # distributing a global actuator input: every actuator reads its own entries (vector and callable form)
+    acts = [c for c in system.contributions if hasattr(c, "tauDOF") and len(np.atleast_1d(c.tauDOF))]
+    if ok and len(acts) >= 1 and system.ntau >= 1:
+        vec = 10.0 * (1.0 + np.arange(system.ntau, dtype=float))
+        for form, arg in (("vector", vec), ("callable", lambda t: vec + t)):
+            try:
+                system.set_tau(arg)
+                for c in acts:
+                    want = (vec + (0.5 if form == "callable" else 0.0))[np.atleast_1d(c.tauDOF)]
+                    got = np.atleast_1d(np.asarray(c.tau(0.5), float))
+                    evals += 1
+                    if got.shape != want.shape or np.max(np.abs(got - want)) > 0:
+                        fails.append({"site": "System.set_tau: actuator does not read its own entries of the global input",
+                                      "msg": f"{c.name}: tau = {got.tolist()} expected {want.tolist()} ({form} input, ntau={system.ntau}); types {case['types']}",
+                                      "data": dict(data2, form=form, n_actuators=len(acts))})
+            except Exception as e:  # noqa
+                fails.append({"site": "System.set_tau raises", "msg": f"{_exc(e)}; types {case['types']}", "data": dict(data2, exc=_exc(e))})
+        stats["n_set_tau_checked"] = 1
     return {"fails": _dedup(fails), "nontrivial": True, "evals": evals + 1, "outcome": "pair:ok", "stats": stats, "states": 3, "transitions": 2}
 
 
